@@ -142,7 +142,19 @@ def features(s):
         for v in t["values"]:
             if v["dep"]["d"]:
                 out.add("deprecated-enum-value")
+    def siblings(what, items):
+        # two or more deprecated siblings whose reasons differ (with / without / different text)
+        rs = {(x["dep"]["hr"], x["dep"]["r"]) for x in items if x["dep"]["d"]}
+        if len(rs) >= 2:
+            out.add("deprecated-siblings-different-reasons:" + what)
+    for t in s["types"]:
+        siblings("enumValue", t["values"])
+        siblings("field", t["fields"])
+        siblings("inputField", t["inputs"])
+        for f in t["fields"]:
+            siblings("arg", f["args"])
     for d in s["dirs"]:
+        siblings("dirArg", d["args"])
         out.add("directive" + ("-repeatable" if d["rep"] else ""))
     if s["query"] != "Query" or s["mutation"] not in ("", "Mutation") or s["subscription"] not in ("", "Subscription"):
         out.add("custom-root-names")
@@ -158,7 +170,7 @@ def features(s):
 def generate(ctx, quick):
     """Model-check + generate. Returns list of (origin, case) with case = {"id","s","exp","n"}."""
     tier = "q" if quick else "t"
-    jobs = [("bfs-" + c, "MC_C17_%s_%s.cfg" % (c, tier)) for c in "ABCD"]
+    jobs = [("bfs-" + c, "MC_C17_%s_%s.cfg" % (c, tier)) for c in "ABCDEF"]
     out = {}
 
     nsim = 12 if quick else 300
@@ -170,7 +182,7 @@ def generate(ctx, quick):
                                 deadlock=False, tag="sim", heap="6g", count=False)
         return tag, ctx.tlc("core", "MC_C17", cfg, workers=4, timeout=2400, deadlock=False, tag=tag, heap="6g", count=False)
 
-    with concurrent.futures.ThreadPoolExecutor(max_workers=5) as ex:
+    with concurrent.futures.ThreadPoolExecutor(max_workers=7) as ex:
         for tag, r in ex.map(one, jobs + [("sim", "Gen_C17_sim.cfg")]):
             if not r.ok:
                 print(r.out[-4000:])
@@ -203,11 +215,11 @@ def generate(ctx, quick):
 def select(cases, quick, rng):
     """quick: every BFS state of the first levels + a seed-selected sample of the rest; thorough: everything up to caps."""
     if quick:
-        full_upto = {"bfs-A": 1, "bfs-B": 1, "bfs-C": 1, "bfs-D": 0}
-        cap_rest = {"bfs-A": 70, "bfs-B": 80, "bfs-C": 60, "bfs-D": 50, "sim": 60}
+        full_upto = {"bfs-A": 1, "bfs-B": 1, "bfs-C": 1, "bfs-D": 0, "bfs-E": 0, "bfs-F": 0}
+        cap_rest = {"bfs-A": 70, "bfs-B": 80, "bfs-C": 60, "bfs-D": 50, "bfs-E": 30, "bfs-F": 10, "sim": 60}
     else:
         full_upto = {"bfs-A": 3, "bfs-B": 2, "bfs-C": 2, "bfs-D": 6}
-        cap_rest = {"bfs-A": 500, "bfs-B": 800, "bfs-C": 500, "bfs-D": 200, "sim": 800}
+        cap_rest = {"bfs-A": 500, "bfs-B": 800, "bfs-C": 500, "bfs-D": 200, "bfs-E": 400, "bfs-F": 100, "sim": 800}
     chosen, rest = [], {}
     for tag, c in cases:
         if tag in full_upto and c["n"] <= full_upto[tag]:
@@ -395,7 +407,7 @@ def run(ctx):
         for ft in features(c["s"]):
             feats[ft] = feats.get(ft, 0) + 1
     samples = []
-    for tag in ("bfs-A", "bfs-B", "bfs-C", "bfs-D", "sim"):
+    for tag in ("bfs-A", "bfs-B", "bfs-C", "bfs-D", "bfs-E", "bfs-F", "sim"):
         cs = [c for t, c in cases_sel if t == tag]
         if cs:
             c = max(cs, key=lambda c: len(json.dumps(c["s"])))
